@@ -3,7 +3,8 @@ GENERATED FILE -- DO NOT EDIT.  Written by tools/rust2lean.py from the Rust sour
 `./check` for the properties whose props/Cxx.py names it in PREBUILD; the committed copy is the output for
 the pinned tree.  `Decimal` (and a generic `T` instantiated at `Decimal`) is `Rat`; conditions are decidable
 propositions; `x += e` is a re-binding of `x`.  The agreement with the hand-written models is proved in
-Lemmas/KernelsAgree/*.lean.
+Lemmas/KernelsAgree/*.lean.  Every definition carries the simp attribute `gen_<group>` of its group
+(Generated/Attr.lean), auxiliary functions found by lookup included.
 
 Source items (file :: item, line, hash of the item's source text):
   barter/src/statistic/algorithm.rs :: mod welford_online :: fn calculate_mean  (line 7)  sha256[:16]=9535e0935ef9240c
@@ -24,6 +25,7 @@ Source items (file :: item, line, hash of the item's source text):
   barter/src/statistic/metric/profit_factor.rs :: struct ProfitFactor  (line 15)  sha256[:16]=47dab6af7ff8f5e6
   barter/src/statistic/metric/profit_factor.rs :: impl ProfitFactor :: fn calculate  (line 21)  sha256[:16]=fbad1c44c8b29bd7
 -/
+import BarterModel.Generated.Attr
 namespace BarterModel.Generated
 
 /-! ## Fixed prelude: the meaning given to the `rust_decimal::Decimal` vocabulary (exact rationals) -/
@@ -43,23 +45,23 @@ def Decimal.MIN : Rat := -79228162514264337593543950335
 /-! ## barter/src/statistic/algorithm.rs -/
 
 /-- generated from `mod welford_online :: fn calculate_mean` (barter/src/statistic/algorithm.rs:7) -/
-def welford_online.calculate_mean (prev_mean : Rat) (next_value : Rat) (count : Rat) : Rat :=
+@[gen_welford] def welford_online.calculate_mean (prev_mean : Rat) (next_value : Rat) (count : Rat) : Rat :=
   let prev_mean : Rat := (prev_mean + ((next_value - prev_mean) / count))
   prev_mean
 
 /-- generated from `mod welford_online :: fn calculate_recurrence_relation_m` (barter/src/statistic/algorithm.rs:16) -/
-def welford_online.calculate_recurrence_relation_m (prev_m : Rat) (prev_mean : Rat) (new_value : Rat) (new_mean : Rat) : Rat :=
+@[gen_welford] def welford_online.calculate_recurrence_relation_m (prev_m : Rat) (prev_mean : Rat) (new_value : Rat) (new_mean : Rat) : Rat :=
   (prev_m + ((new_value - prev_mean) * (new_value - new_mean)))
 
 /-- generated from `mod welford_online :: fn calculate_sample_variance` (barter/src/statistic/algorithm.rs:27) -/
-def welford_online.calculate_sample_variance (recurrence_relation_m : Rat) (count : Rat) : Rat :=
+@[gen_welford] def welford_online.calculate_sample_variance (recurrence_relation_m : Rat) (count : Rat) : Rat :=
   (if (count < 2) then
       0
   else
       (recurrence_relation_m / (count - 1)))
 
 /-- generated from `mod welford_online :: fn calculate_population_variance` (barter/src/statistic/algorithm.rs:35) -/
-def welford_online.calculate_population_variance (recurrence_relation_m : Rat) (count : Rat) : Rat :=
+@[gen_welford] def welford_online.calculate_population_variance (recurrence_relation_m : Rat) (count : Rat) : Rat :=
   (if (count < 1) then
       0
   else
@@ -76,7 +78,7 @@ inductive Side where
 /-! ## barter/src/engine/state/position.rs -/
 
 /-- generated from `fn calculate_price_entry_average` (barter/src/engine/state/position.rs:474) -/
-def calculate_price_entry_average (current_price_entry_average : Rat) (current_quantity_abs : Rat) (trade_price : Rat) (trade_quantity_abs : Rat) : Rat :=
+@[gen_position] def calculate_price_entry_average (current_price_entry_average : Rat) (current_quantity_abs : Rat) (trade_price : Rat) (trade_quantity_abs : Rat) : Rat :=
   if ((current_quantity_abs = 0) ∧ (trade_quantity_abs = 0)) then 0
   else
     let current_value : Rat := (current_price_entry_average * current_quantity_abs)
@@ -84,11 +86,11 @@ def calculate_price_entry_average (current_price_entry_average : Rat) (current_q
     ((current_value + trade_value) / (current_quantity_abs + trade_quantity_abs))
 
 /-- generated from `fn approximate_remaining_exit_fees` (barter/src/engine/state/position.rs:517) -/
-def approximate_remaining_exit_fees (quantity_abs : Rat) (quantity_abs_max : Rat) (fees_enter : Rat) : Rat :=
+@[gen_position] def approximate_remaining_exit_fees (quantity_abs : Rat) (quantity_abs_max : Rat) (fees_enter : Rat) : Rat :=
   ((quantity_abs / quantity_abs_max) * fees_enter)
 
 /-- generated from `fn calculate_pnl_unrealised` (barter/src/engine/state/position.rs:492) -/
-def calculate_pnl_unrealised (position_side : Side) (price_entry_average : Rat) (quantity_abs : Rat) (quantity_abs_max : Rat) (fees_enter : Rat) (price : Rat) : Rat :=
+@[gen_position] def calculate_pnl_unrealised (position_side : Side) (price_entry_average : Rat) (quantity_abs : Rat) (quantity_abs_max : Rat) (fees_enter : Rat) (price : Rat) : Rat :=
   let approx_exit_fees : Rat := (approximate_remaining_exit_fees quantity_abs quantity_abs_max fees_enter)
   let value_quote_current : Rat := (quantity_abs * price)
   let value_quote_entry : Rat := (quantity_abs * price_entry_average)
@@ -99,7 +101,7 @@ def calculate_pnl_unrealised (position_side : Side) (price_entry_average : Rat) 
       ((value_quote_entry - value_quote_current) - approx_exit_fees))
 
 /-- generated from `fn calculate_pnl_realised` (barter/src/engine/state/position.rs:527) -/
-def calculate_pnl_realised (position_side : Side) (price_entry_average : Rat) (closed_quantity : Rat) (closed_price : Rat) (closed_fee : Rat) : Rat :=
+@[gen_position] def calculate_pnl_realised (position_side : Side) (price_entry_average : Rat) (closed_quantity : Rat) (closed_price : Rat) (closed_fee : Rat) : Rat :=
   let close_quantity : Rat := (Decimal.abs closed_quantity)
   let value_quote_closed : Rat := (close_quantity * closed_price)
   let value_quote_entry : Rat := (close_quantity * price_entry_average)
@@ -118,17 +120,17 @@ structure Level where
   deriving DecidableEq, Repr
 
 /-- generated from `fn mid_price` (barter-data/src/books/mod.rs:301) -/
-def mid_price (best_bid_price : Rat) (best_ask_price : Rat) : Rat :=
+@[gen_book] def mid_price (best_bid_price : Rat) (best_ask_price : Rat) : Rat :=
   ((best_bid_price + best_ask_price) / 2)
 
 /-- generated from `fn volume_weighted_mid_price` (barter-data/src/books/mod.rs:309) -/
-def volume_weighted_mid_price (best_bid : Level) (best_ask : Level) : Rat :=
+@[gen_book] def volume_weighted_mid_price (best_bid : Level) (best_ask : Level) : Rat :=
   (((best_bid.price * best_ask.amount) + (best_ask.price * best_bid.amount)) / (best_bid.amount + best_ask.amount))
 
 /-! ## barter/src/engine/state/position.rs -/
 
 /-- generated from `fn calculate_pnl_return` (barter/src/engine/state/position.rs:549) -/
-def calculate_pnl_return (pnl_realised : Rat) (price_entry_average : Rat) (quantity_abs_max : Rat) : Rat :=
+@[gen_metric] def calculate_pnl_return (pnl_realised : Rat) (price_entry_average : Rat) (quantity_abs_max : Rat) : Rat :=
   (pnl_realised / (price_entry_average * quantity_abs_max))
 
 /-! ## barter/src/statistic/metric/win_rate.rs -/
@@ -139,7 +141,7 @@ structure WinRate where
   deriving DecidableEq, Repr
 
 /-- generated from `impl WinRate :: fn calculate` (barter/src/statistic/metric/win_rate.rs:18) -/
-def WinRate.calculate (wins : Rat) (total : Rat) : Option WinRate :=
+@[gen_metric] def WinRate.calculate (wins : Rat) (total : Rat) : Option WinRate :=
   if (total = 0) then
     (none : Option WinRate)
   else
@@ -156,7 +158,7 @@ structure ProfitFactor where
   deriving DecidableEq, Repr
 
 /-- generated from `impl ProfitFactor :: fn calculate` (barter/src/statistic/metric/profit_factor.rs:21) -/
-def ProfitFactor.calculate (profits_gross_abs : Rat) (losses_gross_abs : Rat) : Option ProfitFactor :=
+@[gen_metric] def ProfitFactor.calculate (profits_gross_abs : Rat) (losses_gross_abs : Rat) : Option ProfitFactor :=
   if ((profits_gross_abs = 0) ∧ (losses_gross_abs = 0)) then (none : Option ProfitFactor)
   else
     match (if (losses_gross_abs = 0) then some (Decimal.MAX)
